@@ -511,3 +511,133 @@ Example C03_registry_nonvacuous :
   Registry.ok_reg_end_C03 RegistryProofs.example_shutdown [(false, 1%Z, 1%Z); (false, 1%Z, 1%Z)] = true /\
   Registry.ok_reg_end_C03 RegistryProofs.example_shutdown [(false, 1%Z, 1%Z); (true, 1%Z, 0%Z)] = false.
 Proof. vm_compute. auto. Qed.
+
+(* ---- 12. a reusable per-stream object through repeated use cycles: the multicast proxy ----------
+   "… stopping a single consumer does the same for that consumer only.  Afterwards the stream's
+   consumer count is zero … no delivery goroutine of that stream remains", for a consumer that is
+   STARTED AND STOPPED MANY TIMES on the same live stream.  The multicast proxy of a RECORD stream is
+   the stream's one RTP consumer on behalf of all multicast players: the first member starts it,
+   the last member leaving or the stream's end stops it, and the next member starts it again.
+   Model/C03Mcast.v: histories of [MJoin i | MLeave i | MPub | MEnd | MExit] ([MExit]: the delivery
+   goroutine of a cycle that was stopped by its last member runs its deferred Consumer.Close, at any
+   later time); [spec_step] is the release specification as a function of the history alone,
+   [mstep mfixed] the implementation as a state machine (closed flag, member list, current
+   consumption, socket, pending goroutines), [spec_obs]/[mobserve] what is seen from outside after an
+   event (ConsumerCount, socket held, members on record, per session: connection ended, packets
+   received).  Tied to /repo by the stream "multicast-cycles" of checks/c03.py: the histories are
+   replayed with real RTSP sessions on the multicast proxy of a real RECORD stream, the delivery
+   goroutines stepped through the consume.pop / consume.got points; and by the cycle histories of
+   "transport-release" (join / leave / join for every transport). *)
+From V Require C03Mcast C03McastProofs RunC03Mcast C03McastWireProofs.
+
+(* for every well-formed history — any number of sessions and of start/stop cycles, members
+   overlapping or one after the other, stale goroutine exits anywhere — the implementation shows
+   after every event exactly what the specification prescribes *)
+Theorem C03_mcast_impl_meets_spec : forall n h, C03Mcast.hist_wf h = true ->
+  C03Mcast.mtrace C03Mcast.mfixed n C03Mcast.minit h = C03Mcast.spec_trace n C03Mcast.spec0 h.
+Proof. exact C03McastProofs.mcast_impl_meets_spec. Qed.
+Print Assumptions C03_mcast_impl_meets_spec.
+
+(* after every history: the proxy is idle — no consumer on the stream, no socket — exactly when no
+   member is attached (in particular after each "last member leaves", in every cycle), and running
+   with exactly one consumer while somebody is *)
+Theorem C03_mcast_idle_iff_no_member : forall h, C03Mcast.hist_wf h = true ->
+  let s := C03Mcast.mrun C03Mcast.mfixed h in let p := C03Mcast.spec_run h in
+  C03Mcast.m_members s = C03Mcast.sp_members p /\
+  (C03Mcast.sp_members p = [] -> C03Mcast.m_consumers s = [] /\ C03Mcast.m_sock s = false) /\
+  (C03Mcast.sp_members p <> [] ->
+     C03Mcast.m_consumers s = [C03Mcast.m_gen s] /\ C03Mcast.m_sock s = true /\ C03Mcast.m_closed s = false).
+Proof. exact C03McastProofs.mcast_idle_iff_no_member. Qed.
+Print Assumptions C03_mcast_idle_iff_no_member.
+
+(* after the stream's end every session that ever joined — whichever cycle it belonged to — has had
+   its connection ended, and the proxy is idle *)
+Theorem C03_mcast_end_closes_every_member : forall h1 h2 i,
+  C03Mcast.hist_wf (h1 ++ C03Mcast.MEnd :: h2) = true -> In (C03Mcast.MJoin i) h1 ->
+  let s := C03Mcast.mrun C03Mcast.mfixed (h1 ++ C03Mcast.MEnd :: h2) in
+  In i (C03Mcast.m_ended s) /\ C03Mcast.m_members s = [] /\ C03Mcast.m_consumers s = [] /\
+  C03Mcast.m_sock s = false.
+Proof. exact C03McastProofs.mcast_end_closes_every_member. Qed.
+Print Assumptions C03_mcast_end_closes_every_member.
+
+(* nobody is disconnected without cause: only the session's own leave or the stream's end ends its connection
+   (not another member leaving, not the late Close of an earlier cycle) *)
+Theorem C03_mcast_stop_is_local : forall h i, C03Mcast.hist_wf h = true ->
+  In i (C03Mcast.m_ended (C03Mcast.mrun C03Mcast.mfixed h)) -> In (C03Mcast.MLeave i) h \/ In C03Mcast.MEnd h.
+Proof. exact C03McastProofs.mcast_stop_is_local. Qed.
+Print Assumptions C03_mcast_stop_is_local.
+
+(* the oracle applied to the real proxy accepts the implementation model, also in its extracted wire form *)
+Theorem C03_mcast_model_passes : forall n h, C03Mcast.hist_wf h = true ->
+  C03Mcast.ok_mcast n h (C03Mcast.mtrace C03Mcast.mfixed n C03Mcast.minit h) = true.
+Proof. exact C03McastProofs.mcast_model_passes. Qed.
+Print Assumptions C03_mcast_model_passes.
+
+Theorem C03_mcast_model_passes_on_the_wire : forall c,
+  C03Mcast.hist_wf (RunC03Mcast.dec_mhist c) = true ->
+  RunC03Mcast.x_C03_mcast_ok (Val.VL [c; RunC03Mcast.x_C03_mcast_run c]) = Val.VI 1%Z.
+Proof. exact C03McastWireProofs.mcast_model_passes_on_the_wire. Qed.
+Print Assumptions C03_mcast_model_passes_on_the_wire.
+
+(* without one of the three things that make a restart sound the specification is violated:
+   (a) the closed flag not re-armed by AddMember (the seeded change): from the second cycle on the last
+       leave does not stop the consumer, and the stream's end does not close the attached member *)
+Theorem C03_mcast_no_rearm_leave_refuted :
+  let h := [C03Mcast.MJoin 0; C03Mcast.MLeave 0; C03Mcast.MExit; C03Mcast.MJoin 1; C03Mcast.MLeave 1] in
+  C03Mcast.hist_wf h = true /\ C03Mcast.sp_members (C03Mcast.spec_run h) = [] /\
+  C03Mcast.m_consumers (C03Mcast.mrun C03McastProofs.mseed h) = [2] /\
+  C03Mcast.m_sock (C03Mcast.mrun C03McastProofs.mseed h) = true.
+Proof. exact C03McastProofs.mcast_no_rearm_leave_refuted. Qed.
+Print Assumptions C03_mcast_no_rearm_leave_refuted.
+
+Theorem C03_mcast_no_rearm_end_refuted :
+  let h := [C03Mcast.MJoin 0; C03Mcast.MLeave 0; C03Mcast.MExit; C03Mcast.MJoin 1; C03Mcast.MEnd] in
+  C03Mcast.hist_wf h = true /\ C03Mcast.memn 1 (C03Mcast.sp_ended (C03Mcast.spec_run h)) = true /\
+  C03Mcast.memn 1 (C03Mcast.m_ended (C03Mcast.mrun C03McastProofs.mseed h)) = false /\
+  C03Mcast.m_sock (C03Mcast.mrun C03McastProofs.mseed h) = true.
+Proof. exact C03McastProofs.mcast_no_rearm_end_refuted. Qed.
+Print Assumptions C03_mcast_no_rearm_end_refuted.
+
+(* (b) only the member that starts the proxy is recorded (the code before repair f25ada3, reproduced on it) *)
+Theorem C03_mcast_one_member_refuted :
+  C03Mcast.hist_wf [C03Mcast.MJoin 0; C03Mcast.MJoin 1; C03Mcast.MLeave 0] = true /\
+  C03Mcast.sp_members (C03Mcast.spec_run [C03Mcast.MJoin 0; C03Mcast.MJoin 1; C03Mcast.MLeave 0]) = [1] /\
+  C03Mcast.m_consumers (C03Mcast.mrun C03McastProofs.mone [C03Mcast.MJoin 0; C03Mcast.MJoin 1; C03Mcast.MLeave 0]) = [] /\
+  C03Mcast.memn 1 (C03Mcast.sp_ended (C03Mcast.spec_run [C03Mcast.MJoin 0; C03Mcast.MJoin 1; C03Mcast.MEnd])) = true /\
+  C03Mcast.memn 1 (C03Mcast.m_ended (C03Mcast.mrun C03McastProofs.mone [C03Mcast.MJoin 0; C03Mcast.MJoin 1; C03Mcast.MEnd])) = false.
+Proof. exact C03McastProofs.mcast_one_member_refuted. Qed.
+Print Assumptions C03_mcast_one_member_refuted.
+
+(* (c) the deferred Close of the previous cycle's delivery goroutine acts on the current cycle (the code before
+       repair f25ada3 / a3830f6, reproduced on it by holding the goroutine at consume.got) *)
+Theorem C03_mcast_stale_close_refuted :
+  let h := [C03Mcast.MJoin 0; C03Mcast.MLeave 0; C03Mcast.MJoin 1; C03Mcast.MExit] in
+  C03Mcast.hist_wf h = true /\ C03Mcast.sp_members (C03Mcast.spec_run h) = [1] /\
+  C03Mcast.memn 1 (C03Mcast.sp_ended (C03Mcast.spec_run h)) = false /\
+  C03Mcast.m_consumers (C03Mcast.mrun C03McastProofs.mstale h) = [] /\
+  C03Mcast.memn 1 (C03Mcast.m_ended (C03Mcast.mrun C03McastProofs.mstale h)) = true.
+Proof. exact C03McastProofs.mcast_stale_close_refuted. Qed.
+Print Assumptions C03_mcast_stale_close_refuted.
+
+(* non-vacuity: three cycles with overlapping members, delayed goroutine exits, packets in every cycle, then
+   the end: everybody ended, everybody got the packets of his own time, the proxy idle; the oracle accepts the
+   implementation's observations and rejects those of each of the three variants *)
+Example C03_mcast_nonvacuous :
+  C03Mcast.hist_wf C03McastProofs.mcast_example = true /\
+  C03Mcast.m_gen (C03Mcast.mrun C03Mcast.mfixed C03McastProofs.mcast_example) = 3 /\
+  map (fun i => C03Mcast.memn i (C03Mcast.m_ended (C03Mcast.mrun C03Mcast.mfixed C03McastProofs.mcast_example))) (seq 0 5)
+    = [true; true; true; true; true] /\
+  map (fun i => C03Mcast.countn i (C03Mcast.m_got (C03Mcast.mrun C03Mcast.mfixed C03McastProofs.mcast_example))) (seq 0 5)
+    = [2; 2; 1; 1; 1]%Z /\
+  C03Mcast.m_consumers (C03Mcast.mrun C03Mcast.mfixed C03McastProofs.mcast_example) = [] /\
+  C03Mcast.m_sock (C03Mcast.mrun C03Mcast.mfixed C03McastProofs.mcast_example) = false /\
+  C03Mcast.ok_mcast 5 C03McastProofs.mcast_example
+    (C03Mcast.mtrace C03Mcast.mfixed 5 C03Mcast.minit C03McastProofs.mcast_example) = true /\
+  C03Mcast.ok_mcast 5 C03McastProofs.mcast_example
+    (C03Mcast.mtrace C03McastProofs.mseed 5 C03Mcast.minit C03McastProofs.mcast_example) = false /\
+  C03Mcast.ok_mcast 5 C03McastProofs.mcast_example
+    (C03Mcast.mtrace C03McastProofs.mone 5 C03Mcast.minit C03McastProofs.mcast_example) = false /\
+  C03Mcast.ok_mcast 5 [C03Mcast.MJoin 0; C03Mcast.MLeave 0; C03Mcast.MJoin 1; C03Mcast.MExit]
+    (C03Mcast.mtrace C03McastProofs.mstale 5 C03Mcast.minit
+       [C03Mcast.MJoin 0; C03Mcast.MLeave 0; C03Mcast.MJoin 1; C03Mcast.MExit]) = false.
+Proof. exact C03McastProofs.mcast_nonvacuous. Qed.
